@@ -62,6 +62,15 @@ def gen_C15(ctx, n):
                 if nm in cfg:
                     cfg[nm]["aggr"] = 0.3          # far outside every band
                     cfg[nm]["pEmpty"] = 0.0
+        if i % 3 == 2 and others:
+            # a second rule of the same class with its own (disjoint) targets and rate — disabled half
+            # of the time: every rule instance has its own target set, a disabled rule does nothing
+            cfg["PLR2"] = {"class": "PriceLimitRule", "targetMarkets": [m for m in others if rng.random() < 0.7] or [others[0]],
+                           "triggerChangeRate": float(rng.choice([0.03, 0.1, 0.0])), "enabled": rng.random() < 0.5}
+            evs = ["PLR", "PLR2"] if rng.random() < 0.5 else ["PLR2", "PLR"]
+            for nm in ("NA", "HA"):
+                if nm in cfg:
+                    cfg[nm]["aggr"] = 0.3
         for k, s in enumerate(cfg["simulation"]["sessions"]):
             s["withOrderPlacement"] = True
             s["withOrderExecution"] = rng.random() < 0.8
@@ -130,6 +139,16 @@ def gen_C14(ctx, n):
                           "orderVolume": rng.choice([1, 10, 1000]), "orderTimeLength": rng.choice([1, 3, 10]),
                           "enabled": rng.random() < 0.85}
             ev.append("OMS")
+        if "OMS" in ev and i % 4 == 1:
+            # a price limit rule (an untimed order hook) on the shock's own target market with a band
+            # narrower than the mistake: the mistaken order is still priced at market price x (1+rate)
+            cfg["PLR"] = {"class": "PriceLimitRule", "targetMarkets": [cfg["OMS"]["target"]],
+                          "triggerChangeRate": 0.01, "enabled": True}
+            cfg["OMS"]["priceChangeRate"] = float(rng.choice([-0.05, 0.05, -0.2, 0.1, -0.5]))
+            if rng.random() < 0.5:
+                ev.append("PLR")
+            else:
+                ev.insert(0, "PLR")
         ses[k]["events"] = ev
         yield cfg, rng.randint(0, 2 ** 31)
 
@@ -153,8 +172,13 @@ def mon_C15(run, cfg, seed):
         out.append(viol("C15", "C15/run-raised:" + run.error[0], "orders are accepted (clipped on target markets, unchanged elsewhere); nothing raises",
                         {"error": run.error[:3]}, cfg, seed))
     sim = run.sim
-    targets = {sim.name2market[n].market_id for n in rule["targetMarkets"]} if rule.get("enabled", True) else set()
-    r = rule["triggerChangeRate"]
+    # market id -> rate of the (enabled) rule that targets it; the generator keeps target sets disjoint
+    targets = {}
+    for rk in ("PLR", "PLR2"):
+        rl = cfg.get(rk)
+        if rl is not None and rl.get("enabled", True):
+            for n in rl["targetMarkets"]:
+                targets[sim.name2market[n].market_id] = rl["triggerChangeRate"]
     p0 = {m.market_id: m.get_market_price(0) for m in sim.markets if m.get_time() >= 0}
     tick = {m.market_id: m.tick_size for m in sim.markets}
     log = after_setup(run)
@@ -176,6 +200,7 @@ def mon_C15(run, cfg, seed):
             checks += 1
             m = a["market"]
             if m in targets and a["price"] is not None:
+                r = targets[m]
                 # p0 = the market's price at time 0 as it stands when the order arrives
                 want = clip_ref(ref0, r, a["price"])
                 lo, hi = ref0 * (1 - r), ref0 * (1 + r)
@@ -404,6 +429,10 @@ def mon_C14(run, cfg, seed):
                 expect = dict(a, buy=o["priceChangeRate"] > 0, kind="LIMIT_ORDER", vol=o["orderVolume"],
                               ttl=o["orderTimeLength"], price=mp * (1 + o["priceChangeRate"]))
             bad = [k for k in expect if (post[k] != expect[k] and not (k == "price" and post[k] is not None and expect[k] is not None and math.isclose(post[k], expect[k], rel_tol=1e-12)))]
+            plr = cfg.get("PLR")
+            if bad == ["price"] and expect is a and plr is not None and plr.get("enabled", True) and \
+                    a["market"] in {sim.name2market[n].market_id for n in plr["targetMarkets"]}:
+                bad = []        # an ordinary order clipped by the price limit rule configured here (C15's business)
             if bad:
                 if expect is a:
                     sig = "C14/order-altered-that-is-not-the-first-target-order"
